@@ -411,7 +411,42 @@ pub fn gen_swap(r: &mut Rng, w: &mut Wallet, cx: &Ctx) -> Option<Transaction> {
     fix_fee(w, &mut tx, &inputs, cx.mult, r.below(100) as u128, change).then_some(tx)
 }
 
+/// a deposit whose two outputs are in one and the same (non-MEL) denomination, naming the "pool" of that denomination
+/// with itself in the long spelling: no such pool may ever exist
+fn gen_equal_sided_deposit(r: &mut Rng, w: &mut Wallet, cx: &Ctx) -> Option<Transaction> {
+    let cands: Vec<&WCoin> = cx.coins.iter().filter(|c| c.cdh.coin_data.denom != Denom::Mel && c.cdh.coin_data.value.0 >= 2).collect();
+    if cands.is_empty() {
+        return None;
+    }
+    let c = (*r.pick(&cands)).clone();
+    let d = c.cdh.coin_data.denom;
+    let mut inputs = pick_inputs(r, cx, 0, None)?;
+    if !inputs.iter().any(|x| x.id == c.id) {
+        inputs.push(c.clone());
+    }
+    let have = total(&inputs, d);
+    let a = 1 + r.u128() % (have / 2).max(1);
+    let b = match r.below(3) {
+        0 => 1,
+        1 => have - a,
+        _ => 1 + r.u128() % (have - a).max(1),
+    }
+    .min(have - a)
+    .max(1);
+    let outs = vec![out(w.rand_addr(r, cx.height), a, d), out(w.rand_addr(r, cx.height), b, d)];
+    let (outs, change) = balance(r, w, &inputs, outs, cx.height);
+    let mut data = vec![0u8; 32];
+    data.extend_from_slice(&stdcode::serialize(&(d, d)).unwrap());
+    let mut tx = assemble(w, TxKind::LiqDeposit, &inputs, outs, 0, data);
+    fix_fee(w, &mut tx, &inputs, cx.mult, 0, change).then_some(tx)
+}
+
 pub fn gen_deposit(r: &mut Rng, w: &mut Wallet, cx: &Ctx) -> Option<Transaction> {
+    if r.chance(1, 12) {
+        if let Some(t) = gen_equal_sided_deposit(r, w, cx) {
+            return Some(t);
+        }
+    }
     // an existing pool, or a new pool between two denominations the wallet holds
     let mut denoms: Vec<Denom> = vec![];
     for c in cx.coins {
